@@ -837,10 +837,11 @@ func vhnlRun(sc vhnlScenario) (obs vhnlObs) {
 	obs.Leaver.GossipOpen = vhnlDialable(lost.gossipAddr())
 
 	// ---- survivors stop routing to it (graceful: every survivor ends up with "left", directly or through gossip)
+	announced := obs.Leaver.Own.Left // without a published marker nobody can ever learn "left": do not wait for it
 	vhnlUntil(remain(), func() bool {
 		for _, s := range survivors {
 			st := s.statusOf(lost.id)
-			if st == "active" || (sc.Mode == "graceful" && st != "left") {
+			if st == "active" || (sc.Mode == "graceful" && announced && st != "left") {
 				return false
 			}
 		}
